@@ -38,10 +38,12 @@ let handle (toks : string list) : string =
   | ["knots"; lo; hi; adj; raw] -> str_floats (knots o (f lo) (f hi) (f adj) (floats_of raw))
   | ["derivs"; md; raw] -> str_floats (derivs o (f md) (floats_of raw))
   | ["deriv.init"; md] -> hexf (deriv_init o (f md))
-  | ["planar"; w; u] ->
+  | ["planar"; slope; w; u] ->
       let w = floats_of w and u = floats_of u in
-      str_floats (planar_act_scale o w u) ^ " " ^ hexf (planar_wu o w u)
-  | ["planar.denom"; s; w; u] -> hexf (planar_denom o (f s) (floats_of w) (floats_of u))
+      let sl = if slope = "none" then None else Some (f slope) in
+      str_floats (planar_act_scale o sl w u) ^ " " ^ hexf (planar_wu o sl w u)
+  | ["planar.denom"; slope; s; w; u] -> hexf (planar_denom o (f slope) (f s) (floats_of w) (floats_of u))
+  | ["planar.denom.old"; s; w; u] -> hexf (planar_denom_old o (f s) (floats_of w) (floats_of u))
   | ["wn.unwrap"; raw; rows] -> str_mat (wn_unwrap o (floats_of raw) (mat_of rows))
   | ["wn.norms"; raw; rows] -> str_floats (List.map (norm o) (wn_unwrap o (floats_of raw) (mat_of rows)))
   | ["wn.init"; rows] -> str_floats (wn_init o (mat_of rows))
